@@ -17,6 +17,7 @@ WIGM_ARITH = [
     {'arithmetic': 'fixed', 'precision': 1},
     {'arithmetic': 'fixed', 'precision': 2},
     {'arithmetic': 'fixed', 'precision': 4},
+    {'arithmetic': 'fixed', 'precision': 4, 'display': 2},     # display < precision must not touch the arithmetic
     {'arithmetic': 'fixed', 'precision': 9},
     {'arithmetic': 'integer'},
     {'arithmetic': 'rational'},
@@ -41,6 +42,7 @@ MEEK_ARITH = [
     {'arithmetic': 'fixed', 'precision': 2, 'omega': 4},     # omega below one unit: forces the stable-state exit
     {'arithmetic': 'fixed', 'precision': 4},
     {'arithmetic': 'fixed', 'precision': 4, 'omega': 4},
+    {'arithmetic': 'fixed', 'precision': 5, 'display': 2},
     {'arithmetic': 'fixed', 'precision': 9},
 ]
 
